@@ -70,6 +70,11 @@ die(const char *how)
 		signal(SIGTERM, SIG_DFL);
 		raise(SIGTERM);
 	}
+	if (strcmp(how, "pipe") == 0) {
+		/* what happens to a stage whose reader went away */
+		signal(SIGPIPE, SIG_DFL);
+		raise(SIGPIPE);
+	}
 	if (strcmp(how, "hup") == 0) {
 		signal(SIGHUP, SIG_DFL);
 		raise(SIGHUP);
